@@ -1637,7 +1637,7 @@ def run(rep, tier, seed):
     # every run (gen/py2lean.py) and proved equal to the model's leaves (Props/C14 source_*_is_model); the translations are run
     # against the real methods here
     from harness import kernels
-    kernels.obligations(rep, ['rangeTest', 'sizeTest', 'singleValueTest', 'alphabetTest'])
+    kernels.obligations(rep, ['rangeTest', 'sizeTest', 'singleValueTest', 'alphabetTest', 'intersectionTest', 'unionTest', 'exclusionTest'])
     kernels.check(rep, drv, seed, 150 if tier == 'quick' else 5000, which=('constraintLeaves',))
     run_corpus(rep, drv, rng)
     audit_sources(rep)
